@@ -67,3 +67,32 @@ end
 
 end Doc
 end ShapeVerif
+
+namespace ShapeVerif
+namespace Doc
+
+/-- lookup of a member (first match) -/
+def getMember (k : String) : List (String × Doc) → Option Doc
+  | [] => none
+  | (k', v) :: l => if k == k' then some v else getMember k l
+
+def keysDistinct : List (String × Doc) → Bool
+  | [] => true
+  | (k, _) :: l => !(l.any (fun kv => kv.1 == k)) && keysDistinct l
+
+mutual
+/-- no object anywhere in the document repeats a member name -/
+def noDupKeys : Doc → Bool
+  | arr xs => noDupKeysList xs
+  | obj ms => keysDistinct ms && noDupKeysMembers ms
+  | _ => true
+def noDupKeysList : List Doc → Bool
+  | [] => true
+  | x :: xs => noDupKeys x && noDupKeysList xs
+def noDupKeysMembers : List (String × Doc) → Bool
+  | [] => true
+  | (_, v) :: ms => noDupKeys v && noDupKeysMembers ms
+end
+
+end Doc
+end ShapeVerif
